@@ -167,6 +167,9 @@ class C07(Prop):
                         return f"{what} changes {names[i]} of column {k}: {ra[i]!r} vs {rb[i]!r}"
         return None
 
+    def extra_coverage(self):
+        return {"repair_tie_skipped": getattr(dc.compare_rows, "skipped", 0)}
+
     def nontrivial(self, case, io):
         return len(set(case["y"])) > 1 and any(len(set(c)) > 1 for c in case["cols"])
 
